@@ -28,12 +28,17 @@ Definition opt_sx (o : option sx) : sx := match o with Some s => s | None => sx_
    sub 4: (grid levels) -> support sequences of all slices (no asserts)
    sub 5: (grouping slice_version container_version force grid levels) -> (grid levels container_sizes weights dict_keys containers) | err 1
           the pipeline on container OBJECTS (Model/RombergContainers.v); one entry per container:
-          (left_point right_point max_level minimal_step_width ((l r) ... of its slices)), attributes as (v) or () = None *)
+          (left_point right_point max_level minimal_step_width ((l r) ... of its slices) normalized_levels), attributes as (v) or () = None *)
 Definition of_optQc (o : option Qc) : sx := match o with Some x => Lv [of_Qc x] | None => Lv [] end.
 Definition of_optnat (o : option nat) : sx := match o with Some n => Lv [Zv (Z.of_nat n)] | None => Lv [] end.
 Definition of_cont (c : cont) : sx :=
   Lv [of_optQc (c_left c); of_optQc (c_right c); of_optnat (c_max_level c); of_optQc (c_min_step c);
-      Lv (map (fun s => Lv [of_Qc (sl_l s); of_Qc (sl_r s)]) (c_slices c))].
+      Lv (map (fun s => Lv [of_Qc (sl_l s); of_Qc (sl_r s)]) (c_slices c));
+      (* get_normalized_grid_levels(): the grid levels of a unit container, the positional levels otherwise *)
+      of_Lnat (match c_slices c with
+               | [s] => [sl_ll s; sl_rl s]
+               | sl => normalized_levels (S (length sl))
+               end)].
 
 Definition entry_C11 (sub : Z) (a : sx) : sx :=
   match sub, a with
